@@ -1696,10 +1696,10 @@ Proof.
       apply queue_ok_set_queue; [reflexivity|]. intros _ Hne. exfalso. apply Hne. reflexivity.
   - (* MQBind *)
     destruct (alookup _ _ _); [|exact H]. destruct (seqb ex ""); [exact H|].
-    destruct (queue_found s q); [|exact H]. destruct (locked _ _); [exact H|]. destruct (bad_xmatch _); [exact H|]. cbn [fst].
+    destruct (queue_found s q); [|exact H]. destruct (locked _ _); [exact H|]. destruct (bad_xmatch _); [exact H|]. destruct (extype_eqb _ ExTopic && bad_pattern _)%bool; [exact H|]. cbn [fst].
     revert H; apply sameview_inv; apply sameview_fields; reflexivity.
   - (* MQUnbind *)
-    destruct (alookup _ _ _); [|exact H]. destruct (queue_found s q); [|exact H]. destruct (locked _ _); [exact H|]. destruct (bad_xmatch _); [exact H|]. cbn [fst].
+    destruct (alookup _ _ _); [|exact H]. destruct (queue_found s q); [|exact H]. destruct (locked _ _); [exact H|]. destruct (bad_xmatch _); [exact H|]. destruct (extype_eqb _ ExTopic && bad_pattern _)%bool; [exact H|]. cbn [fst].
     revert H; apply sameview_inv; apply sameview_fields; reflexivity.
   - (* MQPurge *)
     destruct (queue_found s q) as [qu|] eqn:Ef; [|exact H]. destruct (locked _ _); [exact H|]. cbn [fst].
@@ -2174,9 +2174,9 @@ Proof.
     + destruct passive; [destruct nowait; exact H|]. cbn [fst]. repeat same_conns. auto.
   - (* MQBind *)
     destruct (alookup _ _ _); [|exact H]. destruct (seqb ex ""); [exact H|].
-    destruct (queue_found s q); [|exact H]. destruct (locked _ _); [exact H|]. destruct (bad_xmatch _); [exact H|]. cbn [fst]. same_conns. auto.
+    destruct (queue_found s q); [|exact H]. destruct (locked _ _); [exact H|]. destruct (bad_xmatch _); [exact H|]. destruct (extype_eqb _ ExTopic && bad_pattern _)%bool; [exact H|]. cbn [fst]. same_conns. auto.
   - (* MQUnbind *)
-    destruct (alookup _ _ _); [|exact H]. destruct (queue_found s q); [|exact H]. destruct (locked _ _); [exact H|]. destruct (bad_xmatch _); [exact H|]. cbn [fst]. same_conns. auto.
+    destruct (alookup _ _ _); [|exact H]. destruct (queue_found s q); [|exact H]. destruct (locked _ _); [exact H|]. destruct (bad_xmatch _); [exact H|]. destruct (extype_eqb _ ExTopic && bad_pattern _)%bool; [exact H|]. cbn [fst]. same_conns. auto.
   - (* MQPurge *)
     destruct (queue_found s q) as [qu|]; [|exact H]. destruct (locked _ _); [exact H|]. cbn [fst]. ce.
   - (* MQDelete *)
@@ -2582,8 +2582,8 @@ Proof.
     + repeat match goal with |- context [if ?b then _ else _] => destruct b end; cbn [fst]; apply hle_refl.
     + destruct passive; [destruct nowait; apply hle_refl|]. cbn [fst]. apply hle_same; reflexivity.
   - destruct (alookup _ _ _); [|apply hle_refl]. destruct (seqb ex ""); [apply hle_refl|].
-    destruct (queue_found s q); [|apply hle_refl]. destruct (locked _ _); [apply hle_refl|]. destruct (bad_xmatch _); [apply hle_refl|]. cbn [fst]. hl.
-  - destruct (alookup _ _ _); [|apply hle_refl]. destruct (queue_found s q); [|apply hle_refl]. destruct (locked _ _); [apply hle_refl|]. destruct (bad_xmatch _); [apply hle_refl|]. cbn [fst]. hl.
+    destruct (queue_found s q); [|apply hle_refl]. destruct (locked _ _); [apply hle_refl|]. destruct (bad_xmatch _); [apply hle_refl|]. destruct (extype_eqb _ ExTopic && bad_pattern _)%bool; [apply hle_refl|]. cbn [fst]. hl.
+  - destruct (alookup _ _ _); [|apply hle_refl]. destruct (queue_found s q); [|apply hle_refl]. destruct (locked _ _); [apply hle_refl|]. destruct (bad_xmatch _); [apply hle_refl|]. destruct (extype_eqb _ ExTopic && bad_pattern _)%bool; [apply hle_refl|]. cbn [fst]. hl.
   - destruct (queue_found s q) as [qu|]; [|apply hle_refl]. destruct (locked _ _); [apply hle_refl|]. cbn [fst].
     apply hle_same; destruct (q_durable qu); reflexivity.
   - destruct (queue_found s q); [|apply hle_refl]. destruct (locked _ _); [apply hle_refl|].
